@@ -119,11 +119,18 @@ def c11_precision(exe, tier, seed, out):
         delta = rng.choice([1, max(1, q // 10), max(1, q // 3), max(1, q // 2), q])
         if q >= 100 and delta * 20 < q:
             delta = max(1, q // 20)
+        late = ""
+        if _ % 10 == 7:
+            # a coarse clock with cheap reads at first: whole batches of samples see no tick at all; later reads cost a
+            # good part of a step (the step itself stays uniform), so that the measurement terminates quickly
+            delta = rng.choice([1, 1, 2])
+            q = rng.choice([10 ** 6, 10 ** 7, 10 ** 8]) * delta
+            late = " %d %d" % (rng.choice([20_000, 20_500, 25_000, 40_000, 80_000]), q // rng.choice([2, 3, 5]) + 1)
         freq = rng.choice([1, 1000, 10 ** 6, 10 ** 9, 2_400_000_000, 3 * 10 ** 9, 10 ** 10, 10 ** 12])
         base = rng.choice([0, 1, 999, 10 ** 6, 2 ** 40]) + rng.randrange(0, q)
         if (q * models.PICOS) // freq == 0:
             continue
-        qs.append("P %d %d %d %d" % (freq, delta, q, base))
+        qs.append("P %d %d %d %d%s" % (freq, delta, q, base, late))
         meta.append((freq, delta, q))
     ans = ask(exe, qs)
     steps = set()
@@ -135,6 +142,7 @@ def c11_precision(exe, tier, seed, out):
             out.violation("C11:precision", "timer with uniform step of %d ticks (read cost %d ticks, %d Hz) reports precision %s ps, the step is %d ps" % (q, delta, freq, got, exp),
                           {"engine": "release", "bin": "puredrv", "query": query})
     out.extra["precision_clocks"] = len(meta)
+    out.extra["precision_coarse_clocks"] = sum(1 for (_, d, q) in meta if q >= 20_000 * d)
     out.extra["precision_distinct_clocks"] = len(steps)
     for s in list(steps)[:3]:
         out.add_sample({"clock": {"step_ticks": s[0], "read_cost_ticks": s[1], "frequency": s[2]}})
